@@ -88,6 +88,19 @@ def generate(doc):
     return serialize_python(*parse(doc))
 
 
+def generate_from_file(doc):
+    """the generator's own entry point, from a document on disk (loading, reference resolution, titling, parsing, printing)"""
+    from statham.__main__ import main
+    tmp = tempfile.mkdtemp(prefix="statham-c20-main-")
+    try:
+        path = os.path.join(tmp, "doc.json")
+        with open(path, "w", encoding="utf8") as fh:
+            json.dump(doc, fh)
+        return main(path + "#/")
+    finally:
+        shutil.rmtree(tmp, ignore_errors=True)
+
+
 def model_outcome(drv, op, doc):
     rep = drv.ask({"op": op, "schema": core.enc_val(doc), "tables": core.make_tables([], [], [], names=core_names(doc))})
     if "error" in rep:
@@ -151,7 +164,7 @@ def check_pair(drv, base, path, kind, kw, value, out, stats, label):
     stats["pos-" + kind] = stats.get("pos-" + kind, 0) + 1
     stats["kw-" + kw] = stats.get("kw-" + kw, 0) + 1
     in_definitions = len(path) >= 1 and path[0] == "definitions"
-    routes = [("parse", parse), ("generate", generate)] + ([] if in_definitions else [("parse_element", parse_element)])
+    routes = [("parse", parse), ("generate", generate), ("main", generate_from_file)] + ([] if in_definitions else [("parse_element", parse_element)])
     for name, fn in routes:
         without = classify(fn, base)
         if without != "ok":
